@@ -421,8 +421,23 @@ class Flattener:
         return out
 
     def _stmt(self, st, stack, depth) -> list[ast.stmt]:
+        if isinstance(st, ast.Match):
+            from .loader import lower_match
+
+            low = lower_match(st)
+            if low is not None:
+                return self._block(low, stack, depth)
         if isinstance(st, ast.Assert):
             return []  # assertions state invariants the author believes; the rules analyse the code as if they hold
+        if isinstance(st, ast.Expr) and isinstance(st.value, ast.Call):
+            c_ = st.value
+            fn_ = norm(c_.func)
+            drain = (fn_ in ("deque", "collections.deque") and len(c_.args) == 1 and any(k.arg == "maxlen" and isinstance(k.value, ast.Constant) and k.value.value == 0 for k in c_.keywords)) \
+                or (fn_ in ("list", "tuple") and len(c_.args) == 1 and not c_.keywords and isinstance(c_.args[0], ast.Call))
+            if drain:
+                # the "consume" idiom: run an iterator to its end, discarding the items
+                loop = ast.For(target=ast.Name(id="_", ctx=ast.Store()), iter=c_.args[0], body=[ast.Pass()], orelse=[], lineno=st.lineno, col_offset=0)
+                return self._stmt(ast.fix_missing_locations(ast.copy_location(loop, st)), stack, depth)
         hoisted = _hoist_walrus(st)
         if hoisted:
             return self._block([*hoisted, st], stack, depth)
@@ -459,6 +474,13 @@ class Flattener:
             st.finalbody = self._block(st.finalbody, stack, depth)
             return [st]
         if isinstance(st, ast.With):
+            if len(st.items) == 1 and st.items[0].optional_vars is None and isinstance(st.items[0].context_expr, ast.Call) \
+                    and norm(st.items[0].context_expr.func) in ("contextlib.suppress", "suppress") and st.items[0].context_expr.args:
+                # `with suppress(E1, E2): body` is `try: body` / `except (E1, E2): pass`
+                excs = st.items[0].context_expr.args
+                typ = excs[0] if len(excs) == 1 else ast.Tuple(elts=list(excs), ctx=ast.Load())
+                tr = ast.Try(body=st.body, handlers=[ast.ExceptHandler(type=typ, name=None, body=[ast.Pass()], lineno=st.lineno, col_offset=0)], orelse=[], finalbody=[], lineno=st.lineno, col_offset=0)
+                return self._stmt(ast.fix_missing_locations(ast.copy_location(tr, st)), stack, depth)
             st.body = self._block(st.body, stack, depth) or [ast.Pass()]
             return [st]
         if isinstance(st, (ast.FunctionDef, ast.AsyncFunctionDef, ast.ClassDef)):
@@ -736,6 +758,10 @@ def propagate_aliases(stmts: list[ast.stmt]) -> list[ast.stmt]:
             if counts.get(t) != 1 or t.endswith("_ret"):
                 continue
             if temp and _is_alias_value(n.value):
+                values[t] = n.value
+            elif not temp and isinstance(n.value, ast.Name) and n.value.id.startswith("_i") and not n.value.id.endswith("_ret") and counts.get(n.value.id) == 1:
+                # a caller's local bound once to an inlined helper's local that is itself bound once: two names of one
+                # object (also when that object is mutated through either name)
                 values[t] = n.value
             elif not temp and isinstance(n.value, ast.Attribute) and dotted(n.value) is not None:
                 # a caller's local bound once to a pure attribute chain that the function never rebinds
@@ -1237,6 +1263,8 @@ def scalar_replace_records(stmts: list[ast.stmt], prog: Program, fi: FuncInfo) -
 
     mod = U().visit(mod)
     stmts = mod.body
+    stmts = _tupleize_namedtuples(stmts, prog, fi)
+    mod = ast.Module(body=stmts, type_ignores=[])
     if not cands:
         return stmts
     # every use must be a field read, an unpacking, or a constant index
@@ -1291,6 +1319,84 @@ def scalar_replace_records(stmts: list[ast.stmt], prog: Program, fi: FuncInfo) -
             return self.generic_visit(node)
 
     return T().visit(mod).body
+
+
+def _tupleize_namedtuples(stmts: list[ast.stmt], prog: Program, fi: FuncInfo) -> list[ast.stmt]:
+    """A local bound in SEVERAL places (branches) to `NT(a, b)` — a typing.NamedTuple of the package — or to other values,
+    and only ever read by index, by field name or by unpacking: the constructions become plain tuples `(a, b)` and the
+    field reads index reads.  (A NamedTuple is a tuple; nothing else about it is observed by such uses.)"""
+    mod = ast.Module(body=stmts, type_ignores=[])
+
+    def nt_call(v):
+        if not isinstance(v, ast.Call):
+            return None
+        d = dotted(v.func)
+        ci = prog.classes.get(prog.resolve_dotted(fi.module, d)) if d else None
+        if ci is None or not any(norm(b).split(".")[-1] == "NamedTuple" for b in ci.node.bases):
+            return None
+        rf = record_fields(prog, ci)
+        if rf is None or any(isinstance(a, ast.Starred) for a in v.args) or any(k.arg is None for k in v.keywords):
+            return None
+        names = [x for x, _d in rf]
+        vals = dict(zip(names, v.args))
+        for k in v.keywords:
+            if k.arg not in names or k.arg in vals:
+                return None
+            vals[k.arg] = k.value
+        for x, dflt in rf:
+            if x not in vals:
+                if dflt is None:
+                    return None
+                vals[x] = dflt
+        return names, [vals[x] for x in names]
+
+    var_fields: dict[str, list[str]] = {}
+    for n in ast.walk(mod):
+        if isinstance(n, ast.Assign) and len(n.targets) == 1 and isinstance(n.targets[0], ast.Name):
+            r = nt_call(n.value)
+            if r is not None:
+                prev = var_fields.get(n.targets[0].id)
+                if prev is not None and prev != r[0]:
+                    var_fields[n.targets[0].id] = ["<conflict>"]
+                else:
+                    var_fields[n.targets[0].id] = r[0]
+    var_fields = {k: v for k, v in var_fields.items() if v != ["<conflict>"]}
+    if not var_fields:
+        return stmts
+    parents: dict[int, ast.AST] = {}
+    for p in ast.walk(mod):
+        for ch in ast.iter_child_nodes(p):
+            parents[id(ch)] = p
+    for n in ast.walk(mod):
+        if isinstance(n, ast.Name) and isinstance(n.ctx, ast.Load) and n.id in var_fields:
+            p = parents.get(id(n))
+            names = var_fields[n.id]
+            fine = (isinstance(p, ast.Attribute) and p.value is n and p.attr in names and isinstance(p.ctx, ast.Load)) \
+                or (isinstance(p, ast.Subscript) and p.value is n and isinstance(p.ctx, ast.Load)) \
+                or (isinstance(p, ast.Assign) and p.value is n and len(p.targets) == 1 and isinstance(p.targets[0], (ast.Tuple, ast.List)))
+            if not fine:
+                var_fields.pop(n.id, None)
+    if not var_fields:
+        return stmts
+
+    class T(ast.NodeTransformer):
+        def visit_Assign(self, node):
+            self.generic_visit(node)
+            if len(node.targets) == 1 and isinstance(node.targets[0], ast.Name) and node.targets[0].id in var_fields:
+                r = nt_call(node.value)
+                if r is not None:
+                    node.value = ast.copy_location(ast.Tuple(elts=r[1], ctx=ast.Load()), node.value)
+            return node
+
+        def visit_Attribute(self, node):
+            if isinstance(node.value, ast.Name) and node.value.id in var_fields and node.attr in var_fields[node.value.id] and isinstance(node.ctx, ast.Load):
+                return ast.copy_location(ast.Subscript(value=node.value, slice=ast.Constant(value=var_fields[node.value.id].index(node.attr)), ctx=ast.Load()), node)
+            return self.generic_visit(node)
+
+    out = T().visit(mod).body
+    for x in out:
+        ast.fix_missing_locations(x)
+    return out
 
 
 def collapse_temps(stmts: list[ast.stmt], scope: ast.AST) -> list[ast.stmt]:
